@@ -2543,10 +2543,10 @@ MANIFEST = {
     "design_ref": "DESIGN.md 4/C10, 8.6, 8.10",
 }
 FINDINGS = [
-    {"status": "fixed", "key": "data.nat.nat_conv:eval-without-proof", "commit": "fixes/C10-9.patch",
+    {"status": "fixed", "key": "data.nat.nat_conv:eval-without-proof", "commit": "5156d76",
      "what": "nat_conv.eval reported |- 5 - 3 = 2 (nat_eval computes truncated subtraction) while get_proof_term raises "
              "ConvException: the fast evaluation claimed an equation the conversion cannot prove"},
-    {"status": "fixed", "key": "data.integer.int_norm_eq:refuses-domain-term", "commit": "fixes/C10-8.patch",
+    {"status": "fixed", "key": "data.integer.int_norm_eq:refuses-domain-term", "commit": "0cb4eec",
      "what": "int_norm_eq raised ConvException on EVERY input: it tested t.is_int() on the equation itself (type bool) "
              "instead of on its sides, so the procedure that decides integer equations in proof reconstruction decided nothing"},
     {"status": "fixed", "key": "data.real.real_norm_conv:noncanonical", "commit": "153ad93",
